@@ -143,22 +143,22 @@ Proof.
     intros H. destruct (IH m1 Hk1 H) as (j & q & Hin & Hq). exists j, q. split; [now right|assumption].
 Qed.
 
-Lemma proc_fail_exe o p : proc_reads o p = PFail -> exists e, o RExe = Some e /\ e <> ENOENT /\ e <> EACCES.
+Lemma proc_fail_exe o p : proc_reads o p = PFail -> exists e, o RExe = Some e /\ e <> ENOENT /\ e <> EACCES /\ e <> ESRCH.
 Proof.
   unfold proc_reads. destruct (negb (p_isdir p) || negb (is_numeric (p_name p))); [discriminate|].
   unfold read_link at 1. destruct (o RExe) as [e|].
-  - destruct e; try discriminate; intros _; eexists; split; try reflexivity; split; discriminate.
+  - destruct e; try discriminate; intros _; eexists; split; try reflexivity; repeat split; discriminate.
   - destruct (p_exe p); discriminate.
 Qed.
 
 (* the result of FindLayerUsers: an error only for a fault on /proc itself, a non-ENOENT
-   lstat error, or a non-ENOENT/EACCES error of the first readlink of exe; otherwise, for
+   lstat error, or a non-ENOENT/EACCES/ESRCH error of the first readlink of exe; otherwise, for
    every key, the concatenation of the contributions of the surviving entries in order *)
 Theorem flu_cases d orc ps : wf_layersdir d = true ->
   (find_layer_users d orc ps = SErr
    /\ ((exists e, orc 0%nat RTopOpen = Some e) \/ (exists e, orc 0%nat RTopReaddir = Some e)
        \/ (exists j e, orc j RLstat = Some e /\ e <> ENOENT)
-       \/ (exists j e, orc j RExe = Some e /\ e <> ENOENT /\ e <> EACCES)))
+       \/ (exists j e, orc j RExe = Some e /\ e <> ENOENT /\ e <> EACCES /\ e <> ESRCH)))
   \/ exists m es, find_layer_users d orc ps = SOk m
        /\ readdir_lstat (fun i => orc i RLstat) 0 ps = Some es
        /\ keys_ok m
@@ -186,7 +186,7 @@ Theorem scan_survives_vanish d orc ps : wf_layersdir d = true ->
   exists m, find_layer_users d orc ps = SOk m.
 Proof.
   intros Hd Hv. destruct (flu_cases d orc ps Hd) as [[_ H]|(m & es & H & _)]; [exfalso|eauto].
-  destruct H as [[e H]|[[e H]|[(j & e & H & Hne)|(j & e & H & Hne1 & Hne2)]]]; apply Hv in H; cbn in H;
+  destruct H as [[e H]|[[e H]|[(j & e & H & Hne)|(j & e & H & Hne1 & Hne2 & Hne3)]]]; apply Hv in H; cbn in H;
   try discriminate; destruct e; try discriminate; congruence.
 Qed.
 
@@ -596,7 +596,7 @@ Theorem scan_fails_only_if d orc ps : wf_layersdir d = true ->
   (find_layer_users d orc ps = SErr ->
     (exists e, orc 0%nat RTopOpen = Some e) \/ (exists e, orc 0%nat RTopReaddir = Some e)
     \/ (exists j e, orc j RLstat = Some e /\ e <> ENOENT)
-    \/ (exists j e, orc j RExe = Some e /\ e <> ENOENT /\ e <> EACCES)).
+    \/ (exists j e, orc j RExe = Some e /\ e <> ENOENT /\ e <> EACCES /\ e <> ESRCH)).
 Proof.
   intros Hd. split; [now apply flu_never_panics|].
   destruct (flu_cases d orc ps Hd) as [[_ H]|(m & es & -> & _)]; [auto|discriminate].
